@@ -17,7 +17,7 @@ var (
 	c04Left  = []string{"LEFT JOIN", "LEFT HASH_JOIN", "PARALLEL LEFT JOIN", "PARALLEL LEFT HASH_JOIN"}
 	c04Right = []string{"RIGHT JOIN", "RIGHT HASH_JOIN", "PARALLEL RIGHT JOIN", "PARALLEL RIGHT HASH_JOIN"}
 	c04Floor = []string{"type.inner", "type.left", "type.right", "on.equi", "on.nonequi", "on.or", "on.multi", "on.flipped", "keys.str", "keys.num", "dupkeys",
-		"left.empty", "right.empty", "unmatched.left", "unmatched.right", "meta.permute", "meta.flip", "keys.mixed-kind", "alias.prefix"}
+		"left.empty", "right.empty", "unmatched.left", "unmatched.right", "meta.permute", "meta.flip", "keys.mixed-kind", "alias.prefix", "keys.nested-path"}
 )
 
 func init() {
@@ -85,7 +85,12 @@ func c04Tables(c *fw.Case, forceEmpty string, mixed bool) (*gen.Table, *gen.Tabl
 			n = 0
 		}
 		for i := 0; i < n; i++ {
-			t.Rows = append(t.Rows, map[string]any{"rid": float64(i), cols[0]: gen.Pick(c.R, nums), cols[1]: gen.Pick(c.R, strs), cols[2]: gen.Pick(c.R, nums)})
+			row := map[string]any{"rid": float64(i), cols[0]: gen.Pick(c.R, nums), cols[1]: gen.Pick(c.R, strs), cols[2]: gen.Pick(c.R, nums)}
+			if name == "l" {
+				// a key inside a nested object of the left rows (x.o.q)
+				row["o"] = map[string]any{"q": gen.Pick(c.R, nums)}
+			}
+			t.Rows = append(t.Rows, row)
 		}
 		return t
 	}
@@ -95,13 +100,16 @@ func c04Tables(c *fw.Case, forceEmpty string, mixed bool) (*gen.Table, *gen.Tabl
 // c04On builds an ON tree. Column operands are named "x.a" / "y.m".
 func c04On(c *fw.Case, force string) (gen.Pred, []string) {
 	var feats []string
-	pairs := [][2]string{{"x.a", "y.m"}, {"x.z", "y.b"}, {"x.k", "y.j"}, {"x.a", "y.j"}, {"x.k", "y.m"}}
+	pairs := [][2]string{{"x.a", "y.m"}, {"x.z", "y.b"}, {"x.k", "y.j"}, {"x.a", "y.j"}, {"x.k", "y.m"}, {"x.o.q", "y.m"}, {"x.o.q", "y.j"}}
 	ops := []string{"=", "=", "=", "!=", "<", "<=", ">", ">="}
 	atom := func(equiOnly bool) gen.Pred {
 		p := gen.Pick(c.R, pairs)
 		op := gen.Pick(c.R, ops)
 		if equiOnly {
 			op = "="
+		}
+		if p[0] == "x.o.q" {
+			feats = append(feats, "keys.nested-path")
 		}
 		if p[0] == "x.z" {
 			feats = append(feats, "keys.str")
@@ -205,6 +213,14 @@ func c04Ref(l, r *gen.Table, on gen.Pred, jtype string, mixed bool) ([]any, int,
 					v = strconv.FormatFloat(f, 'f', -1, 64)
 				}
 				env["x."+k] = v
+				if obj, isObj := v.(map[string]any); isObj {
+					for nk, nv := range obj {
+						if f, isNum := nv.(float64); isNum && mixed {
+							nv = strconv.FormatFloat(f, 'f', -1, 64)
+						}
+						env["x."+k+"."+nk] = nv
+					}
+				}
 			}
 			for k, v := range rr {
 				env["y."+k] = v
